@@ -834,6 +834,11 @@ func grpcErrorToTrailer(bufferPool *bufferPool, trailer http.Header, protobuf Co
 		trailer.Set(grpcHeaderMessage, "")
 		return
 	}
+	// The error's metadata reaches the peer even if the error itself turns out
+	// not to be serializable below. The protocol's own keys are set afterwards.
+	if connectErr, ok := asError(err); ok {
+		mergeMetadataHeaders(trailer, connectErr.meta)
+	}
 	status, statusErr := grpcStatusFromError(err)
 	if statusErr != nil {
 		trailer.Set(
@@ -861,9 +866,6 @@ func grpcErrorToTrailer(bufferPool *bufferPool, trailer http.Header, protobuf Co
 			),
 		)
 		return
-	}
-	if connectErr, ok := asError(err); ok {
-		mergeMetadataHeaders(trailer, connectErr.meta)
 	}
 	trailer.Set(grpcHeaderStatus, code)
 	trailer.Set(grpcHeaderMessage, grpcPercentEncode(bufferPool, status.Message))
